@@ -189,7 +189,7 @@ const (
 
 // blsOracle decides condition 7.
 type blsOracle struct {
-	keyOf       map[[48]byte]*big.Int // every public key the monitor ever generated -> secret scalar
+	keyOf         map[[48]byte]*big.Int     // every public key the monitor ever generated -> secret scalar
 	forkVersionAt func(slot uint64) [4]byte // fork version of the signing domain for a signature slot
 	genesisRoot   h32
 }
